@@ -168,3 +168,28 @@ Theorem dec_gt_np : forall ns bs, dec_gt ns bs <> RPanic.
 Proof. intros ns bs. unfold dec_gt. np.
 Qed.
 #[local] Hint Resolve dec_gt_np : core.
+
+(* ---------------------------------------------------------------- the whole record *)
+From NV Require Import Bcf.RecordTyped.
+
+Lemma dec_flag_np : forall vb, dec_flag vb <> RPanic.
+Proof. intros vb. unfold dec_flag. np. Qed.
+#[local] Hint Resolve dec_flag_np : core.
+
+Theorem dec_info_kind_np : forall k vb, dec_info_kind k vb <> RPanic.
+Proof. intros k vb. unfold dec_info_kind. np. Qed.
+#[local] Hint Resolve dec_info_kind_np : core.
+
+Theorem dec_fmt_kind_np : forall k ns vb, dec_fmt_kind k ns vb <> RPanic.
+Proof. intros k ns vb. unfold dec_fmt_kind. np. Qed.
+#[local] Hint Resolve dec_fmt_kind_np : core.
+
+Lemma dec_gt_col_np : forall ns vb, dec_gt_col ns vb <> RPanic.
+Proof. intros ns vb. unfold dec_gt_col. np. Qed.
+#[local] Hint Resolve dec_gt_col_np : core.
+
+(* read_record_buf as a whole, on EVERY byte string, for every dictionary, every header typing of
+   the keys and every header sample count *)
+Theorem dec_record_typed_np : forall strings contigs ik fk hs bs,
+  dec_record_typed strings contigs ik fk hs bs <> RPanic.
+Proof. intros strings contigs ik fk hs bs. unfold dec_record_typed. np. Qed.
